@@ -123,12 +123,16 @@ def cosim_plan(exclude=(), handlers=None, d3=False, grpc=False, fsmrace=False):
 
 PLANS = {
     "C19": {
-        "harness": ["codecdiff"],
-        "drivers": codec_drivers,
+        "harness": ["codecdiff", "diskdiff"],
+        # the storage read-back clause ("every log entry ... read back equals what was written") is also exercised through
+        # operation sequences on the real persistentLog (append/truncate/compact/discard/reopen): the LOGPROG family of diskdiff
+        "drivers": lambda ctx: codec_drivers(ctx) + disk_drivers("log", ["LOGPROG"], ["C19"])(ctx),
         "rule": "structured generator over every message/record type (boundary values 0, 2^31, 2^32, 2^63, 2^64-1, nil/empty/large "
                 "byte slices, non-ASCII ids, 0..6 entries, all entry types) -> library encoder bytes compared with the Coq encoder, "
                 "library decoder compared with the Coq decoder on valid encodings, on every prefix and on bit flips; plus a real "
-                "loopback gRPC transport round trip. distinct_nontrivial = distinct case lines with at least one non-default field",
+                "loopback gRPC transport round trip; plus the LOGPROG programs of diskdiff (append / append-batch / truncate / compact / discard / "
+                "close+reopen sequences on the real persistentLog: entries and file bytes read back after every program compared with the "
+                "Coq log-file model - catches a read-back that is lossless for a single write but not after compact->truncate->append->reopen). distinct_nontrivial = distinct case lines with at least one non-default field",
         "nontrivial": lambda l: " - => " not in l and "=> -" not in l,
         "assumptions": ["strings are modelled as byte lists (UTF-8 validity of ids is not modelled; generators use valid UTF-8)",
                         "uint64 lengths: a serialized nested message fits a uint64 length prefix",
